@@ -13,3 +13,5 @@ mk('C14-sample-bookkeeping', [(S, "        res[:, i] = ind\n        phi[i] = np.
 mk('C14-unique-dedup-missing', [(S, "    if unique:\n        I = np.unique(I, axis=0)\n        if I.shape[0] < m:\n", "    if unique:\n        I = np.unique(I, axis=0) if m_fact <= 5 else I\n        if I.shape[0] < m:\n")], 'C14', 'after a restart (m_fact doubled) rows are no longer de-duplicated')
 mk('C14-first-mode-unsert-scaled', [(S, "    p += unsert\n", "    p += unsert * 1.E+6 * (len(p) > 4)\n")], 'C14', 'noise floor 1e6 times larger for mode sizes > 4: zero entries get probability 1e-4/sum')
 mk('C14-sample-cond-stale', [(S, "        phi[i] = np.einsum('il,lij->ij', phi[i-1], c[:, ind])\n", "        phi[i] = np.einsum('il,lij->ij', phi[i-1], c[:, ind if i < 2 else res[:, 0] % c.shape[1]])\n")], 'C14', 'left interface of the third mode on uses the wrong index column')
+
+mk('C14-tt-float-shape', [(S, "    n = np.asanyarray(n, dtype=int)\n\n    def one_mode(sh1, sh2, rng):\n", "    def one_mode(sh1, sh2, rng):\n")], 'C14', 'the repaired defect: sample_tt raises TypeError for float-typed shapes')
